@@ -108,9 +108,9 @@ theorem get_foldl_set (l : List (Bytes × DocWithSeq)) : ∀ (m0 : State) (k : B
       · rw [Map.get_set_ne _ _ _ _ hk] at h1
         exact Or.inr h1
 
-/-- every sequence of a state imported from a validated genesis is below the largest `uint64` -/
+/-- every sequence of a state imported from a validated genesis is a `uint64` -/
 theorem genesis_seq_bound (g : List (Bytes × DocWithSeq)) (hv : Genesis.didGenesisValid g = true) (did : Bytes) :
-    seqOf (Genesis.didImport g) did + 1 < 2 ^ 64 := by
+    seqOf (Genesis.didImport g) did < 2 ^ 64 := by
   unfold seqOf getDoc
   cases hg : (Genesis.didImport g).get did with
   | none => simp
@@ -122,13 +122,6 @@ theorem genesis_seq_bound (g : List (Bytes × DocWithSeq)) (hv : Genesis.didGene
       simp only [Option.getD_some]
       omega
     · simp [Map.get] at h
-
-/-- **Deactivation on a chain started from a validated genesis leaves a tombstone**, for every entry of that genesis
-— including the ones whose sequence the genesis file chose. -/
-theorem genesis_deactivate_makes_tombstone (da : Bytes → Option Bytes) (cr : Crypto)
-    (g : List (Bytes × DocWithSeq)) (hv : Genesis.didGenesisValid g = true) (s' : State) (did vmID sig fr : Bytes)
-    (h : deliver da cr (Genesis.didImport g) (.deactivate did vmID sig fr) = .ok s') : Dead s' did :=
-  deactivate_makes_tombstone da cr _ s' did vmID sig fr (genesis_seq_bound g hv did) h
 
 /-- the excluded point is real: without the bound the successor of the largest sequence is the initial one -/
 example : nextSeq 18446744073709551615 = 0 := by decide
@@ -179,5 +172,13 @@ theorem exhausted_refused (da : Bytes → Option Bytes) (cr : Crypto) (s : State
     | panic e => rfl
 
 example : (2 : Nat) ^ 64 - 1 < 2 ^ 64 := by decide   -- the hypothesis of `deactivate_makes_tombstone_total` at the boundary
+
+/-- **Deactivation on a chain started from a validated genesis leaves a tombstone**, for every entry of that genesis
+— including the ones whose sequence the genesis file chose, up to the last `uint64` (where the handlers refuse). -/
+theorem genesis_deactivate_makes_tombstone (da : Bytes → Option Bytes) (cr : Crypto)
+    (g : List (Bytes × DocWithSeq)) (hv : Genesis.didGenesisValid g = true) (s' : State) (did vmID sig fr : Bytes)
+    (h : deliver da cr (Genesis.didImport g) (.deactivate did vmID sig fr) = .ok s') : Dead s' did :=
+  deactivate_makes_tombstone_total da cr _ s' did vmID sig fr (genesis_seq_bound g hv did) h
+
 
 end Panacea.C05
